@@ -707,6 +707,26 @@ func main() {
 	w("def raiserReads : List String := %s", leanList(raiserReads))
 	w("")
 
+	// ---- calcLeavePlayers: under which condition the hand's player indexes are re-mapped when players leave
+	remapGuard := "unknown"
+	if fd := findFunc(teInt, "tableEngine", "calcLeavePlayers"); fd != nil {
+		for _, st := range fd.Body.List {
+			if !strings.Contains(src(st), "newGamePlayerIndexes = append(") {
+				continue
+			}
+			switch x := st.(type) {
+			case *ast.IfStmt:
+				remapGuard = "if " + src(x.Cond)
+			case *ast.RangeStmt:
+				remapGuard = "always: range " + src(x.X)
+			default:
+				remapGuard = "other"
+			}
+		}
+	}
+	w("def leaveRemapGuard : String := %s", leanStr(remapGuard))
+	w("")
+
 	// ---- statistics: the event symbol validateGameStatisticGameState compares with
 	statEv := "unknown"
 	if fd := findFunc(stats, "tableEngine", "validateGameStatisticGameState"); fd != nil && len(fd.Body.List) > 0 {
